@@ -120,7 +120,7 @@ def check_case(case):
         if r == 'exc' or got != want:
             viol.append(('%s: argv [--o%d] without command: %s, expected %s by default command %s' % (
                 cmds, o + 1, r, 'accepted' if want else 'rejected', dname), [], ['--o%d' % (o + 1)]))
-    free = [['word'], [], ['--glob', 'word'], ['-v']]
+    free = [['word'], [], ['--glob', 'word'], ['-v'], ['help'], ['h', 'word'], ['--', 'word'], ['-']]
     for i in range(n):
         if case['internal'][i]:
             free.append([names[i]])            # the name of an option set is not a command name
@@ -138,7 +138,7 @@ def check_case(case):
             words = []
             good = r == 'ok' and ns.command == dname and ns.tag == argv[1] and list(ns.items) == []
         else:
-            words = [a for a in argv if not a.startswith('-')]
+            words = [a for a in argv if not a.startswith('-') or a == '-']       # a lone '-' is a positional word
             good = r == 'ok' and ns.command == dname and list(ns.items) == words
         if not good:
             tags = ['cli.internal_name_as_first_word'] if (r == 'exit' and argv and argv[0] in names and
